@@ -447,8 +447,15 @@ func (h *H) eval(cs Case) *rig.Failure {
 				// spec and annotations render identically before and after, but the decoded Go values differ
 				// (an explicit empty list/map/bytes against an absent one): its own class
 				class = "c20.generation-bumped-on-empty-vs-absent"
-				what = fmt.Sprintf("step %d: %s of %s (%s): generation %d -> %d although spec and annotations read the same before and after; the request spelled an empty list/map/bytes out (or the store held one): decoded spec %s vs %s, annotations %s vs %s",
-					i, st.Op, s.Kind, s.Name, oldAPI.Generation, out2API.Generation, short(subDeep.Spec), short(oldDeep.Spec), subDeep.Annotations, oldDeep.Annotations)
+				diff := ""
+				if subDeep.Spec != oldDeep.Spec {
+					diff += fmt.Sprintf(" decoded spec %s vs stored %s;", short(subDeep.Spec), short(oldDeep.Spec))
+				}
+				if subDeep.Annotations != oldDeep.Annotations {
+					diff += fmt.Sprintf(" decoded annotations %s vs stored %s;", subDeep.Annotations, oldDeep.Annotations)
+				}
+				what = fmt.Sprintf("step %d: %s of %s (%s): generation %d -> %d although spec and annotations read the same before and after; the request spelled an empty list/map/bytes out (or the store held one):%s",
+					i, st.Op, s.Kind, s.Name, oldAPI.Generation, out2API.Generation, diff)
 			}
 			return fail("judge", class, what, j)
 		}
